@@ -23,6 +23,7 @@ EQUIV = {"PV.Equiv.TranslatedCollection": ["decode_lines_eq", "get_tles_from_url
                                            "read_tle_eq_readTle"],
          "PV.Equiv.TranslatedPlatforms": ["read_platform_numbers_eq"]}
 EQUIV.update({"PV.Equiv.TranslatedBulk": ["parse_tles_eq", "parse_tles_collection", "collect_filenames_eq", "read_tle_files_eq", "read_xml_eq", "read_xml_admin_messages_eq", "read_tle_from_mmam_xml_file_eq"]})      # T-D, fifth wave
+EQUIV["PV.Equiv.TranslatedBulk"] = EQUIV.get("PV.Equiv.TranslatedBulk", []) + ["initEntry_reread", "parse_tles_reread", "xmlFile_pairs", "xmlBulk_eq", "read_tle_files_reread", "read_xml_pairs"]      # T-D, sixth wave
 RULE = ("generated collections of 0-30 checksum-valid entries x naming style {all named, none named, mixed} x line ending "
         "{LF, CRLF, mixed} x padding / blank lines / missing final newline x duplicates and registered catalogue numbers in any "
         "order; per collection the requested names {registered alias with/without an entry, alias in other case/padding, exact "
